@@ -69,6 +69,19 @@ theorem kdf_panics (P : Prims) (x : Nat) (mk ak : Bytes) (h : ak.length < 128 + 
   have h' : ak.length < 96 + x + 32 := by omega
   simp [kdf, h']
 
+theorem kdfG_eq_spec (P : Prims) (x : Nat) (mk ak : Bytes) (h : 128 + x ≤ ak.length) :
+    kdfG P x mk ak = .ok (Spec.keyIv P x ak mk) := by
+  have : ¬ ak.length < 96 + x + 32 := by omega
+  simp only [kdfG, this, if_false]
+  exact kdf_eq_spec P x mk ak h
+
+/-- behind `checkAuthKey` a key that is too short is an error, not the derivation's panic -/
+theorem kdfG_short (P : Prims) (x : Nat) (mk ak : Bytes) (h : ak.length < 128 + x) :
+    kdfG P x mk ak = .err "shortKey" := by
+  have : ak.length < 96 + x + 32 := by omega
+  simp [kdfG, this]
+
+
 /-- the derived AES key and IV are 32 bytes each -/
 theorem keyIv_length {P : Prims} (hP : P.Ok) (x : Nat) (ak mk : Bytes) :
     (Spec.keyIv P x ak mk).1.length = 32 ∧ (Spec.keyIv P x ak mk).2.length = 32 := by
@@ -201,7 +214,7 @@ theorem sealClient_eq_spec (P : Prims) (key : Bytes) (salt sid mid seq : Nat) (a
     simp [pad16, hl]
   have hchk := igeCheck_none _ (by rw [hpl]; omega) (by rw [hpl]; exact padLen_aligned _)
   simp only [pad16, hl] at hchk
-  simp only [sealClient, encrypt, hobj, kdf_eq_spec P 0 _ key (by omega), Spec.sealDir,
+  simp only [sealClient, encrypt, hobj, kdfG_eq_spec P 0 _ key (by omega), Spec.sealDir,
     authKeyId_eq_spec, msgKey_eq_spec, pad16, hl, hchk]
 
 /-- `DeserializeEncrypted` on a packet sealed in direction 8 over *any* block-aligned plaintext
@@ -233,7 +246,7 @@ theorem openClientG_sealed {P : Prims} (hP : P.Ok) (g : Guard) (key mk pt : Byte
   unfold openClientG
   simp only [hdl]
   simp only [hdata, r1, ne_eq, not_true_eq_false, if_false, r2, r3]
-  simp only [decrypt, kdf_eq_spec P 8 _ key (by omega), hchk, hDE]
+  simp only [decrypt, kdfG_eq_spec P 8 _ key (by omega), hchk, hDE]
 
 /-- the second half of `DeserializeEncrypted` (repaired) on a well-formed plaintext with its own
 msg_key: the message -/
